@@ -116,7 +116,7 @@ CHECKS['C05'] = {
                   'append_vk_binding_annotation: every global / constant buffer with an api slot gets exactly one metadata entry, in the bind group of that slot, carrying the slot location, the same-named descriptor kind '
                   'and the bindless flag, and nothing else is added; the register(..) / [[vk::binding(..)]] annotation printed for the same declaration carries the same index and group.',
     'level_note': 'Partial: binding entries only (HLSL: metadata + printed annotations; Metal: the argument-buffer entry analyse_bindings records per declaration - same group, slot location, descriptor kind, bindless flag - and that it lies in one of the four argument buffers the generator declares). NOT decided: descriptor_count of array globals (computed through an un-annotated closure, for which Verus has no postcondition), names (NameMap is opaque), '
-                  'MSL [[id(n)]] members and is_used (generate_pipeline monolith), stage entry points and thread-group sizes (build_pipeline). Assumed: registry getters, Vec::from(array), derived Clone = identity. '
+                  'MSL [[id(n)]] members and is_used (generate_pipeline monolith; PipelineBindingLayout::finish only by a bounded Kani harness: reflected bind groups stay positional for 3 argument buffers of 0..2 entries), stage entry points and thread-group sizes (build_pipeline). Assumed: registry getters, Vec::from(array), derived Clone = identity. '
                   'Preconditions: ids in range, bind group index < 2^28.',
 }
 
